@@ -41,31 +41,31 @@ type c17series struct {
 
 // renderPlot adds the results in the given order and returns the data block of the written
 // HTML, per series, or an error flag.
-func renderPlot(rs []vegeta.Result, threshold int, names []string) ([]c17series, bool) {
+func renderPlot(rs []vegeta.Result, threshold int, names []string) ([]c17series, []int64, bool) {
 	p := plot.New(plot.Title("t"), plot.Downsample(threshold), plot.Label(plot.ErrorLabeler))
 	for i := range rs {
 		if err := p.Add(&rs[i]); err != nil {
-			return nil, true
+			return nil, nil, true
 		}
 	}
 	p.Close()
 	var buf bytes.Buffer
 	if _, err := p.WriteTo(&buf); err != nil {
-		return nil, true
+		return nil, nil, true
 	}
 	html := buf.String()
 	dm := dataRe.FindStringSubmatch(html)
 	om := optsRe.FindStringSubmatch(html)
 	if dm == nil || om == nil {
-		return nil, true
+		return nil, nil, true
 	}
 	var opts struct{ Labels []string }
 	if err := json.Unmarshal([]byte(om[1]), &opts); err != nil {
-		return nil, true
+		return nil, nil, true
 	}
 	var rows [][]float64
 	if err := json.Unmarshal([]byte(strings.ReplaceAll(dm[1], "NaN", "null")), &rowsNull{&rows}); err != nil {
-		return nil, true
+		return nil, nil, true
 	}
 	var out []c17series
 	for col := 1; col < len(opts.Labels); col++ {
@@ -84,7 +84,13 @@ func renderPlot(rs []vegeta.Result, threshold int, names []string) ([]c17series,
 		}
 		out = append(out, s)
 	}
-	return out, false
+	var rowx []int64 // x of every row of the data block, in the order written
+	for _, row := range rows {
+		if len(row) > 0 {
+			rowx = append(rowx, int64(math.Round(row[0]*1000)))
+		}
+	}
+	return out, rowx, false
 }
 
 // rowsNull decodes [[x, y|null, ...], ...] with null as NaN
@@ -191,9 +197,9 @@ func runC17(idx int, rng *rand.Rand, tier string) []Case {
 	for i, p := range perm {
 		arr[i], aid[i] = all[p], ids[p]
 	}
-	full, addErr := renderPlot(arr, 0, names)
+	full, fullx, addErr := renderPlot(arr, 0, names)
 	th := []int{0, 1, 2, 3, 5, 10, 50, 4000}[rng.Intn(8)]
-	down, downErr := renderPlot(arr, th, names)
+	down, downx, downErr := renderPlot(arr, th, names)
 	var c Case
 	w := &c.W
 	w.Z(1)
@@ -204,9 +210,11 @@ func runC17(idx int, rng *rand.Rand, tier string) []Case {
 	}
 	w.Bool(addErr)
 	w.Series(full)
+	w.Zs(fullx)
 	w.I(th)
 	w.Bool(downErr)
 	w.Series(down)
+	w.Zs(downx)
 	c.Tag = "plot"
 	if outOfDomain {
 		c.Tag = "plot.ood"
